@@ -2,6 +2,7 @@ package main
 
 import (
 	"fmt"
+	"go/token"
 	"go/types"
 	"os"
 	"path/filepath"
@@ -274,12 +275,55 @@ func (vc *VC) finish() {
 		}
 		bindResults(freeEnv, sig, fres)
 	}
-	for _, c := range vc.con.Ensures {
-		o := vc.oblige("ensures", Rexit, vc.evalBool(c.E, env), vc.fn.Pos(), c.Text)
-		o.Name = fmt.Sprintf("%s#ensures.%d", vc.fname(), c.Ord)
-		o.Tags = c.Tags
-		if freeEnv != nil {
-			o.GoalFree = vc.evalBool(c.E, freeEnv)
+	// A function that changes memory and has several return sites gets one obligation per
+	// (clause, return site), named #ensures.K/rN (N = ordinal of the return statement in source
+	// order): the goal then talks about that path's own memory instead of an ite-merge of all.
+	memChanged := false
+	for _, m := range vc.retMems {
+		if len(m.m) > 0 || len(m.wild) > 0 || len(m.lazyMems) > 0 {
+			memChanged = true
+		}
+	}
+	if memChanged && len(vc.retR) > 1 {
+		order := make([]int, len(vc.retR))
+		for i := range order {
+			order[i] = i
+		}
+		retPos := func(i int) token.Pos {
+			b := vc.retBlks[i]
+			return b.Instrs[len(b.Instrs)-1].Pos()
+		}
+		sort.SliceStable(order, func(a, b int) bool { return retPos(order[a]) < retPos(order[b]) })
+		for n, i := range order {
+			var ri SVal
+			switch nres {
+			case 0:
+			case 1:
+				ri = vc.retVals[i][0]
+			default:
+				ri = SVal{K: KTuple, T: sig.Results(), F: vc.retVals[i]}
+			}
+			envi := &Env{vc: vc, vars: map[string]SVal{}, mem: vc.retMems[i], old: old}
+			for k, v := range old.vars {
+				envi.vars[k] = v
+			}
+			bindResults(envi, sig, ri)
+			for _, c := range vc.con.Ensures {
+				o := vc.oblige("ensures", vc.retR[i], vc.evalBool(c.E, envi), retPos(i), c.Text)
+				o.Name = fmt.Sprintf("%s#ensures.%d/r%d", vc.fname(), c.Ord, n+1)
+				o.Tags = c.Tags
+			}
+			vc.preservesObligations(vc.retR[i], vc.retMems[i], envi, fmt.Sprintf("/r%d", n+1))
+		}
+	} else {
+		vc.preservesObligations(Rexit, mem, env, "")
+		for _, c := range vc.con.Ensures {
+			o := vc.oblige("ensures", Rexit, vc.evalBool(c.E, env), vc.fn.Pos(), c.Text)
+			o.Name = fmt.Sprintf("%s#ensures.%d", vc.fname(), c.Ord)
+			o.Tags = c.Tags
+			if freeEnv != nil {
+				o.GoalFree = vc.evalBool(c.E, freeEnv)
+			}
 		}
 	}
 	for _, c := range vc.con.Canaries {
